@@ -144,6 +144,74 @@ theorem table_protocol_error (B : Backend σ κ γ ρ) (sc : List (List γ)) (t 
     step B sc t s .protoErr = (t, s, .err .protocol) := by
   cases h : t.inTxn <;> simp [step, h]
 
+end
+
+/-! ## a protocol error between MULTI and EXEC -/
+
+section
+variable {σ κ γ ρ : Type} [DecidableEq ρ]
+
+/-- the two errors that, as in Redis, leave a transaction usable -/
+def benignInMulti : ConnErr → Bool
+  | .nestedMulti => true
+  | .watchInMulti => true
+  | _ => false
+
+/-- **a queue-time error discards the transaction**: every input between MULTI and EXEC that is
+    answered with an error — other than a nested MULTI / a WATCH, which Redis tolerates too —
+    flags the transaction, so that EXEC answers EXECABORT and applies nothing -/
+def C05_error_reply_flags (stepF : Backend σ κ γ ρ → List (List γ) → ConnTxn κ γ ρ → σ → Input κ γ →
+    ConnTxn κ γ ρ × σ × Reply ρ) : Prop :=
+  ∀ (B : Backend σ κ γ ρ) (sc : List (List γ)) (t : ConnTxn κ γ ρ) (s : σ) (i : Input κ γ) (e : ConnErr),
+    t.inTxn = true → endsTxn i = false → (stepF B sc t s i).2.2 = .err e → benignInMulti e = false →
+    (stepF B sc t s i).1.errors = true
+
+/-- **partial** (the current tree): holds for every input but the protocol error -/
+theorem error_reply_flags_partial (B : Backend σ κ γ ρ) (sc : List (List γ)) (t : ConnTxn κ γ ρ)
+    (s : σ) (i : Input κ γ) (e : ConnErr) (hin : t.inTxn = true) (hi : endsTxn i = false)
+    (hp : i ≠ .protoErr) (hr : (step B sc t s i).2.2 = .err e) (hb : benignInMulti e = false) :
+    (step B sc t s i).1.errors = true := by
+  cases i <;> simp_all [step, endsTxn] <;> (subst hr; simp [benignInMulti] at hb)
+
+/-- **full** for the tree with the proposed fix -/
+theorem error_reply_flags_fixed : C05_error_reply_flags (σ := σ) (κ := κ) (γ := γ) (ρ := ρ) stepFixed := by
+  intro B sc t s i e hin hi hr hb
+  cases i <;> simp_all [stepFixed, step, endsTxn] <;> (subst hr; simp [benignInMulti] at hb)
+
+/-- the fix changes nothing but the flag after a protocol error inside MULTI -/
+theorem stepFixed_eq_step (B : Backend σ κ γ ρ) (sc : List (List γ)) (t : ConnTxn κ γ ρ) (s : σ)
+    (i : Input κ γ) (h : i ≠ .protoErr ∨ t.inTxn = false) : stepFixed B sc t s i = step B sc t s i := by
+  cases i <;> simp_all [stepFixed, step]
+
+end
+
+/-- REFUTED for the code as it is: `MULTI; SET k 1; <bytes that are not RESP>; EXEC` — the
+    connection answers `-ERR protocol error`, does not flag the transaction, and EXEC applies the
+    rest (Redis closes the connection, so nothing is applied) -/
+theorem protocol_error_not_flagged_counterexample :
+    ¬ C05_error_reply_flags (σ := KV.Store) (κ := Nat) (γ := KV.Cmd) (ρ := KV.Rep) step := by
+  intro h
+  have := h KV.backend [] { inTxn := true, queue := [.set 1 [49]], errors := false, watched := [] } []
+    .protoErr .protocol rfl rfl (by decide) rfl
+  revert this
+  decide
+
+/-- the witness as a trace, current tree vs tree with the fix -/
+example :
+    let tr : List (Input Nat KV.Cmd) := [.multi, .cmd (.set 1 [49]), .protoErr, .exec]
+    (tr.foldl (fun (a : ConnTxn Nat KV.Cmd KV.Rep × KV.Store × List (Reply KV.Rep)) i =>
+        let r := stepWith false KV.backend [] a.1 a.2.1 i; (r.1, r.2.1, a.2.2 ++ [r.2.2]))
+      (ConnTxn.idle, [], [])).2 =
+      ([(1, .str [49])], [.ok, .queued, .err .protocol, .results [.simple .ok]]) ∧
+    (tr.foldl (fun (a : ConnTxn Nat KV.Cmd KV.Rep × KV.Store × List (Reply KV.Rep)) i =>
+        let r := stepWith true KV.backend [] a.1 a.2.1 i; (r.1, r.2.1, a.2.2 ++ [r.2.2]))
+      (ConnTxn.idle, [], [])).2 =
+      ([], [.ok, .queued, .err .protocol, .err .execAbort]) := by
+  decide
+
+section
+variable {σ κ γ ρ : Type} [DecidableEq ρ]
+
 /-! ## the strongest guarantee EXEC gives under every schedule -/
 
 /-- the queued commands sent as a PLAIN PIPELINE outside MULTI (state `t0`), the other clients'
